@@ -7,6 +7,5 @@ CONSTANTS
   DefectLateClose = FALSE
   DefectIgnoreDeadline = TRUE
   DefectDoubleNil = FALSE
-INVARIANTS TypeOK ShutdownWaits DeadlineBounds NothingAfterStop MisuseErrors NoAcceptAfterBegin
-PROPERTIES NoHandlerStartAfterNil AcceptOnlyWhileStarted
+INVARIANTS DeadlineBounds
 CHECK_DEADLOCK FALSE
